@@ -55,6 +55,11 @@ class SimRandom(object):
         return p
 
     def choice(self, n, *a, **kw):
+        if not a and not kw and not isinstance(n, (int, _np.integer)) and self.mode != "real":
+            # choice(sequence): the scheduler picks the position
+            seq = _np.asarray(n)
+            if seq.ndim == 1 and len(seq) > 0:
+                return seq[self.choice(len(seq))]
         if a or kw or not isinstance(n, (int, _np.integer)):
             # not the call shape the repository uses today; defer to the real generator
             self.draws.append(("choice*", None))
